@@ -67,6 +67,10 @@ def bw_fixed():
     # >= 3 blocks: evicts with num_free_blocks 1 and 2; low labels after the extension
     s["evict3"] = ([B(i) for i in range(0xFE)] + [B(0x61, 0x62, c) for c in range(0x100)]
                    + [B(0x7F, 0), B(0x7F, 0x80), B(0x7E, 1), B(0x7E, 0x81), B(0, 0), B(0xFF, 0, 1)])
+    # block-boundary spills: block 0 exactly full, then ONE more edge labelled NUL (the new block holds a
+    # single state in its first slot); and a NUL chain (states whose single label is 0x00)
+    s["spill_nul"] = [B(i) for i in range(0x00, 0xFE)] + [B(0x05, 0x00)]
+    s["nul_chain"] = [bytes(9), bytes(4) + b"\x01"]
     # states whose 255 children (0x01..=0xFF, no NUL child) fill a fresh block except its head slot:
     # the head slot stays vacant and only the sanitising pass keeps byte 0x00 from following it
     s["fanx"] = ([B(0)] + [B(h, c) for h in (0x68, 0x69, 0x6A, 0x6B) for c in range(1, 0x100)]
@@ -211,6 +215,8 @@ def cw_fixed():
     s["cjk"] = ["全世界", "世界", "に", "aに", "世界中に", "世"]
     s["astral"] = ["😀", "a😀", "😀😁", "𝄞a", "é😁"]
     s["tokyo"] = ["東京", "京都", "東京都", "都"]
+    # characters at the UTF-8 width boundaries: U+007F/U+0080, U+07FF/U+0800, U+FFFF/U+10000
+    s["bound"] = ["\x7f\x80", "\x80\u07ff", "\u07ff\u0800", "\u0800\uffff", "\uffff\U00010000", "a\U00010000b"]
     # control-character alphabets: a 3-4 entry mapper table (tiny serialised images for family A)
     s["ctl2"] = ["\x01\x02", "\x02\x01", "\x02"]
     s["ctl3"] = ["\x01\x02", "\x02\x03", "\x01\x02\x03", "\x03"]
